@@ -1820,6 +1820,7 @@ func TestProp(t *testing.T) {
 	t.Run("auth-reconnect", func(t *testing.T) { core.Run(t, authCheck) })
 	t.Run("outage-steady", func(t *testing.T) { core.Run(t, steadyCheck) })
 	t.Run("handshake-hold", func(t *testing.T) { core.Run(t, heldCheck) })
+	t.Run("drop-goroutines", func(t *testing.T) { core.Run(t, dropGoroutinesCheck) })
 	t.Run("batch", func(t *testing.T) {
 		core.Run(t, batchCheck)
 		core.Extra(batchCheck.Name, "scenarios", totalScenarios.Load())
@@ -1829,5 +1830,5 @@ func TestProp(t *testing.T) {
 }
 
 func TestReplay(t *testing.T) {
-	core.Replay(t, batchCheck, outageCheck, longPollCheck, dropSeqCheck, edgeCheck, authCheck, steadyCheck, heldCheck)
+	core.Replay(t, batchCheck, outageCheck, longPollCheck, dropSeqCheck, edgeCheck, authCheck, steadyCheck, heldCheck, dropGoroutinesCheck)
 }
